@@ -18,6 +18,8 @@ TRUSTED = ["the in-process reference stream (real PcfgQueue + create_guesses wit
            "translator tie of the session loop: harness/translate_session.py (ast -> Gallina, fail closed; accepted subset and what it does not model in its docstring) and the meaning coq/theories/SessionRt.v gives to `while`, break, try/except OSError, `if limit:` and `x is None`; every collaborator of CrackingSession.run / _save_session (queue, grammar object with quit flag and OMEN counters, save configuration and file, keyboard thread) is an operation on an abstract world: the translated text equals SessionModel.m_run for every world (C12_source_run_is_model), and the property theorems instantiate the world with the collaborators of Session.v (SessionModel.sworld) or constrain it by a contract (quiet_world)"]
 ASSUMES = ["N >= 1 (the CLI rejects N < 0; N = 0 means no limit)", "--limit together with --load of an interrupted Markov level is not claimed "
            "(restore_omen does not take the limit); it is outside the runs below"]
+import cli_tie as _cli_tie
+TRUSTED = TRUSTED + [_cli_tie.TRUSTED]
 
 
 def stdout_print_sites():
@@ -292,19 +294,30 @@ def run(ctx):
             "pcfg_guesser.py as a subprocess with stdin kept open; stdout bytes "
             "compared with the in-process reference stream for N = 1, total-1, total, total+1, b-1/b/b+1 around sampled cumulative group boundaries "
             "b and points strictly inside groups and Markov levels; honeywords / random_walk line counts; a ruleset that cannot be loaded; static "
-            "scan of every print in the guesser; non-trivial = N strictly inside a pre-terminal; distinct by (ruleset, N)")
+            "scan of every print in the guesser; generated command lines through the real parse_command_line and main (recording stand-ins, harness/cli_tie.py: typed limit vs the limit the sessions get, also on --load) against the model; non-trivial = N strictly inside a pre-terminal; distinct by (ruleset, N)")
     # second tie to the source (translator): name the broken equality if the build lost ExpandGenProofs
     import expand_tie
     corr.append(expand_tie.obligation())
     # translator tie of the session loop itself (CrackingSession.run = SessionModel.m_run = Session.limited)
     import session_tie
     corr.append(session_tie.obligation("session"))
+    # translator tie of parse_command_line / main (the --limit validation, the limit that reaches the sessions also on --load,
+    # no print of main on stdout) + its correspondence against the real functions
+    import cli_tie
+    corr += cli_tie.obligations("C09")
+    c2, v2, st = cli_tie.run(ctx, "C09", n_parse=ctx.scale(100, 800), n_main=ctx.scale(50, 400))
+    corr += c2
+    vio += v2
+    dist.update(st)
     return {"evaluations": dist["cli_runs"], "distinct_nontrivial": nontrivial, "rule": rule, "samples": samples,
             "corr": corr, "violations": vio, "dist": dist, "corr_explained_by_known": False}
 
 
 def replay(ctx, data):
     inp = data.get("input") or {}
+    if inp.get("cli") in ("parse", "main", "saveload"):
+        import cli_tie
+        return cli_tie.replay(ctx, "C09", inp)
     if "static" in inp:
         s = stdout_print_sites()
         return [{"sig": "C09:stdout-print-sites", "what": str(s[:8]), "replay": inp}] if s else []
